@@ -27,6 +27,11 @@ fn bins_from(args: &[String]) -> Binaries {
         grex: arg_value(args, "--grex").unwrap_or_else(|| "/verif/target/repo-cli/release/grex".into()),
         probe: arg_value(args, "--probe").unwrap_or_else(|| "/verif/target/sim/release/fromfile_probe".into()),
         shim: arg_value(args, "--shim").unwrap_or_else(|| "/verif/build/libsimenv.so".into()),
+        scratch: format!(
+            "{}/simenv-{}",
+            arg_value(args, "--scratch-dir").unwrap_or_else(|| "/verif/target/tmp".into()),
+            std::process::id()
+        ),
     }
 }
 
@@ -139,6 +144,13 @@ fn sweep_cases(seed: u64, tier: &str, bins: &Binaries, scratch: Option<&str>) ->
         c.no_end = true;
         c
     };
+    // no anchors and nothing else: the printed pattern is the bare expression (empty for the empty test case)
+    let bare = {
+        let mut c = Cfg::default();
+        c.no_start = true;
+        c.no_end = true;
+        c
+    };
     for (name, lines) in &corpus {
         for ch in CHANNELS {
             for crlf in 0..3u64 {
@@ -146,7 +158,7 @@ fn sweep_cases(seed: u64, tier: &str, bins: &Binaries, scratch: Option<&str>) ->
                     if *ch == "args" && (crlf > 0 || !final_nl) {
                         continue;
                     }
-                    for cfg in [&Cfg::default(), &busy] {
+                    for cfg in [&Cfg::default(), &busy, &bare] {
                         if let Some(content) = content_for(ch, lines, crlf, final_nl, &mut rng) {
                             let mut c = make_case(ch, lines, &content, cfg, &mut rng, true);
                             c.note = format!("sweep/a {} crlf={} final_nl={}", name, crlf, final_nl);
@@ -205,8 +217,8 @@ fn sweep_cases(seed: u64, tier: &str, bins: &Binaries, scratch: Option<&str>) ->
                 make_case(ch, lines, &content, &Cfg::default(), &mut rng, true)
             };
             // fault-free run to learn how many calls of each class the program makes
-            let obs = match run_case(&base, bins, 20) {
-                Ok(o) => o,
+            let obs = match run_in_slot(&base, bins, 20, 16) {
+                Ok((o, _)) => o,
                 Err(_) => continue,
             };
             let counts: Vec<(&str, usize)> = vec![
@@ -221,7 +233,7 @@ fn sweep_cases(seed: u64, tier: &str, bins: &Binaries, scratch: Option<&str>) ->
                 let n = n.min(if long { 3 } else { 6 });
                 for idx in 0..n {
                     let kinds: Vec<(&str, i64)> = match cls {
-                        "r0" | "rf" => vec![("eintr", 0), ("chunk", 1), ("chunk", 3), ("eof", 0), ("err", 5), ("err", 21)],
+                        "r0" | "rf" => vec![("eintr", 0), ("chunk", 1), ("chunk", 3), ("eof", 0), ("err", 5), ("err", 21), ("err", 104), ("err", 32)],
                         "op" => vec![("eintr", 0), ("err", 2), ("err", 13), ("err", 24), ("err", 40)],
                         "st" => vec![("size", 0), ("size", 1), ("size", content.len() as i64 + 4096), ("err", 5)],
                         _ => vec![("eintr", 0), ("chunk", 1), ("chunk", 3)],
@@ -339,34 +351,21 @@ fn sweep_cases(seed: u64, tier: &str, bins: &Binaries, scratch: Option<&str>) ->
         c.note = "sweep/d empty path on stdin".into();
         out.push(Planned { case: c, stratum: "sweep-unusable" });
     }
-    // (e) real files in the real file system, no faults layered: anchors the memfd-backed cases to ordinary files
-    if let Some(dir) = scratch {
-        let _ = std::fs::create_dir_all(dir);
-        let mut k = 0;
+    // (e) the same kind of cases with the shim not planning the path at all (no interception of open/stat/read on
+    // it): anchors the planned-file cases to completely ordinary file access
+    if scratch.is_some() {
         for (name, lines) in corpus.iter().filter(|(n, _)| ["two", "words", "flag-sensitive", "utf8-widths", "empty-middle", "cr-at-end", "dup-heavy", "blank-only"].contains(&n.as_str())) {
             for crlf in 0..2u64 {
                 for final_nl in [true, false] {
                     if let Some(content) = content_for("file", lines, crlf, final_nl, &mut rng) {
                         for ch in ["file", "file-via-stdin", "probe"] {
-                            k += 1;
-                            let path = format!("{}/real-{}.txt", dir, k);
-                            if std::fs::write(&path, &content).is_err() {
-                                continue;
-                            }
                             let mut c = if ch == "probe" {
                                 make_probe_case(&content, &busy, &mut rng)
                             } else {
                                 make_case(ch, lines, &content, &busy, &mut rng, true)
                             };
-                            for a in c.argv.iter_mut() {
-                                *a = a.replace(PLANNED_PATH, &path);
-                            }
-                            if ch == "file-via-stdin" {
-                                c.stdin = String::from_utf8_lossy(&c.stdin).replace(PLANNED_PATH, &path).into_bytes();
-                            }
-                            c.path = path.clone();
                             c.file_mode = FileMode::RealFs;
-                            c.note = format!("sweep/e real file {} crlf={} final_nl={}", name, crlf, final_nl);
+                            c.note = format!("sweep/e unplanned real file {} crlf={} final_nl={}", name, crlf, final_nl);
                             out.push(Planned { case: c, stratum: "sweep-real-fs" });
                         }
                     }
@@ -375,25 +374,13 @@ fn sweep_cases(seed: u64, tier: &str, bins: &Binaries, scratch: Option<&str>) ->
         }
         for (name, bytes) in [("empty", vec![]), ("invalid", vec![b'a', b'\n', 0xFF, b'\n'])] {
             for ch in ["file", "file-via-stdin", "probe"] {
-                k += 1;
-                let path = format!("{}/real-{}.bin", dir, k);
-                if std::fs::write(&path, &bytes).is_err() {
-                    continue;
-                }
                 let mut c = if ch == "probe" {
                     make_probe_case(&bytes, &Cfg::default(), &mut rng)
                 } else {
                     make_case(ch, &[], &bytes, &Cfg::default(), &mut rng, true)
                 };
-                for a in c.argv.iter_mut() {
-                    *a = a.replace(PLANNED_PATH, &path);
-                }
-                if ch == "file-via-stdin" {
-                    c.stdin = String::from_utf8_lossy(&c.stdin).replace(PLANNED_PATH, &path).into_bytes();
-                }
-                c.path = path.clone();
                 c.file_mode = FileMode::RealFs;
-                c.note = format!("sweep/e real unusable file {}", name);
+                c.note = format!("sweep/e unplanned real unusable file {}", name);
                 out.push(Planned { case: c, stratum: "sweep-real-fs" });
             }
         }
@@ -566,7 +553,7 @@ fn execute_all(cases: Vec<Planned>, bins: Arc<Binaries>, jobs: usize, keep_every
     let out: Arc<Mutex<Vec<Done>>> = Arc::new(Mutex::new(vec![]));
     let errs: Arc<Mutex<Vec<String>>> = Arc::new(Mutex::new(vec![]));
     let mut hs = vec![];
-    for _ in 0..jobs {
+    for slot in 0..jobs {
         let (cases, next, out, errs, bins) = (cases.clone(), next.clone(), out.clone(), errs.clone(), bins.clone());
         hs.push(std::thread::spawn(move || loop {
             let i = next.fetch_add(1, Ordering::SeqCst);
@@ -574,16 +561,16 @@ fn execute_all(cases: Vec<Planned>, bins: Arc<Binaries>, jobs: usize, keep_every
                 break;
             }
             let p = &cases[i];
-            let mut r = run_case(&p.case, &bins, 20);
-            if let Ok(o) = &r {
+            let mut r = run_in_slot(&p.case, &bins, 20, slot);
+            if let Ok((o, _)) = &r {
                 if o.timed_out {
                     // a timeout is never a verdict by itself: once more with a longer limit
-                    r = run_case(&p.case, &bins, 60);
+                    r = run_in_slot(&p.case, &bins, 60, slot);
                 }
             }
             match r {
-                Ok(mut obs) => {
-                    let verdict = judge(&p.case, &obs);
+                Ok((mut obs, real_case)) => {
+                    let verdict = judge(&real_case, &obs);
                     let n_records = obs.log.len();
                     // keep memory bounded on large batches: the full call log is only needed for the
                     // determinism sample (every 40th case), for samples and for violations
@@ -720,10 +707,10 @@ fn minimise_case(case: &Case, sig: &str, bins: &Binaries) -> (Case, usize) {
     // the same finding, not merely the same class: class, channel, panic site and reason must all persist
     let fails = |c: &Case, attempts: &mut usize| -> bool {
         *attempts += 1;
-        match run_case(c, bins, 20) {
-            Ok(o) => {
-                let v = judge(c, &o);
-                v.class.is_some() && signature(c, &o, &v) == sig
+        match run_in_slot(c, bins, 20, 17) {
+            Ok((o, m)) => {
+                let v = judge(&m, &o);
+                v.class.is_some() && signature(&m, &o, &v) == sig
             }
             Err(_) => false,
         }
@@ -855,8 +842,7 @@ fn mode_run(args: &[String]) -> i32 {
         return run_c10(seed, &tier, bins, jobs, evidence, &replay_dir, t0);
     }
 
-    let scratch = arg_value(args, "--scratch-dir").unwrap_or_else(|| "/verif/target/tmp".into());
-    let scratch = format!("{}/simenv-real-{}-{}", scratch, seed, std::process::id());
+    let scratch = bins.scratch.clone();
     let mut cases = sweep_cases(seed, &tier, &bins, Some(&scratch));
     let n_sweep = cases.len();
     let n_search: usize = arg_value(args, "--search")
@@ -983,21 +969,24 @@ fn mode_run(args: &[String]) -> i32 {
         let (min, attempts) = minimise_case(&d.case, sig, &bins);
         // re-run the minimised case twice before it is written
         let stable = (0..2).all(|_| {
-            run_case(&min, &bins, 20)
-                .map(|o| {
-                    let v = judge(&min, &o);
-                    v.class.is_some() && &signature(&min, &o, &v) == sig
+            run_in_slot(&min, &bins, 20, 17)
+                .map(|(o, m)| {
+                    let v = judge(&m, &o);
+                    v.class.is_some() && &signature(&m, &o, &v) == sig
                 })
                 .unwrap_or(false)
         });
-        let (final_case, obs) = if stable {
-            let o = run_case(&min, &bins, 20).unwrap();
-            (min, o)
+        let (final_case, obs, verdict) = if stable {
+            let (o, m) = run_in_slot(&min, &bins, 20, 17).unwrap();
+            let v = judge(&m, &o);
+            if v.class.is_some() {
+                (min, o, v)
+            } else {
+                (d.case.clone(), d.obs.clone(), d.verdict.clone())
+            }
         } else {
-            (d.case.clone(), d.obs.clone())
+            (d.case.clone(), d.obs.clone(), d.verdict.clone())
         };
-        let verdict = judge(&final_case, &obs);
-        let verdict = if verdict.class.is_some() { verdict } else { d.verdict.clone() };
         let vj = violation_json(&final_case, &obs, &verdict);
         let name = format!("C12-simenv-seed{}-case{}", seed, d.idx);
         let path = write_replay(&replay_dir, &name, "C12", &final_case, &vj, json!({"occurrences": ds.len(), "minimised_with_runs": attempts, "signature": sig}));
@@ -1167,22 +1156,14 @@ fn mode_replay(args: &[String]) -> i32 {
             return 2;
         }
     };
-    if case.file_mode == FileMode::RealFs {
-        if let Some(parent) = std::path::Path::new(&case.path).parent() {
-            let _ = std::fs::create_dir_all(parent);
-        }
-        if let Err(e) = std::fs::write(&case.path, &case.file) {
-            println!("HARNESS-ERROR cannot recreate {}: {}", case.path, e);
-            return 2;
-        }
-    }
-    let obs = match run_case(&case, &bins, 60) {
-        Ok(o) => o,
+    let (obs, case) = match run_in_slot(&case, &bins, 60, 18) {
+        Ok(x) => x,
         Err(e) => {
             println!("HARNESS-ERROR {}", e);
             return 2;
         }
     };
+    let _ = std::fs::remove_dir_all(&bins.scratch);
     if !obs.started {
         println!("HARNESS-ERROR shim did not start");
         return 2;
@@ -1194,8 +1175,8 @@ fn mode_replay(args: &[String]) -> i32 {
     if v["property"] == "C10" {
         // process facet: compare with the reference case
         if let Some(rc) = Case::from_json(&v["extra"]["reference_case"]) {
-            let ro = match run_case(&rc, &bins, 60) {
-                Ok(o) => o,
+            let ro = match run_in_slot(&rc, &bins, 60, 18) {
+                Ok((o, _)) => o,
                 Err(e) => {
                     println!("HARNESS-ERROR {}", e);
                     return 2;
